@@ -93,13 +93,12 @@ void run(Ctx &ctx, const std::string &w)
     const bool neverFail = (long)thr * hold < cap; // then at every instant at least one page is free by count
 
     vt::Fail fail;
-    std::atomic<long> pops{0}, failedPops{0}, judgedFailed{0}, pushes{0}, handovers{0};
+    std::atomic<long> pops{0}, failedPops{0}, judgedFailed{0}, pushes{0};
 
     const vt::RunStats st = vt::RunThreads(thr, [&](int t) {
         Rng rng(s * 1315423911ULL + (uint64_t)t * 2654435761ULL + 17);
         vt::Delay delay(s ^ ((uint64_t)t << 20) ^ 0x5bd1e995, dly);
         std::vector<uint32_t> &held = mine[t];
-        std::vector<uint32_t> lastOwnerSeen;
         long seq = 0, myPops = 0, myFailed = 0, myJudged = 0, myPushes = 0;
         auto pushOne = [&](size_t idx) {
             const uint32_t p = held[idx];
